@@ -49,6 +49,12 @@ def gen(ctx):
             d = rng.randbytes(n)
             for fn in ("pad_iso_1", "pad_iso_2", "pad_iso_3"):
                 cases.append((fn, (d, bs)))
+    # uniform contents (all 00 / 80 / FF) at every length 0..3 blocks
+    for bs in (4, 8, 16, 3):
+        for n in range(0, 3 * bs + 2):
+            for fill in (b"\x00", b"\x80", b"\xff"):
+                for fn in ("pad_iso_1", "pad_iso_2", "pad_iso_3"):
+                    cases.append((fn, (fill * n, bs)))
     # default block size (None -> 8)
     for n in range(0, 20):
         for fn in ("pad_iso_1", "pad_iso_2", "pad_iso_3"):
